@@ -32,7 +32,10 @@ RULE = (
     'the spelling of the second (2 forms), its own spelling, or an undeclared reference-like text; [literal] literal '
     'words colliding with names (`BA`, `stage0.BA/f.txt`, `-A`, `A.ref` ...) around the references; [methods] '
     'file:ref, stdout :output and a declared-but-unspelled :copy on every pair; [direct] `data/f.txt:ref|output` next '
-    'to `Bdata/f.txt`. The thorough extension adds: the same families over all 8 names (*-ext), pairs with '
+    'to `Bdata/f.txt`; [special-value] an :output reference (file, or the stdout of a dedicated producer) whose value '
+    'is one of 18 texts special to replacement machinery (backslash escapes and group references, $1/&, {0}, regex and '
+    'shell metacharacters, TAB, double space) alone, as key=<ref>, between literals and next to a second reference in '
+    'both declaration orders. The thorough extension adds: the same families over all 8 names (*-ext), pairs with '
     'independent wrappers (3x3) x both token orders (declared spelling as used; and always-absolute declarations with '
     'bare tokens), triples with every legal spelling combination (all :ref) or with the first/last member an :output '
     '(all absolute / relative where legal), 4-token templates (p, key=q, --opt=p, literal), look-alike '
@@ -195,12 +198,13 @@ def build_doc(cases):
             if stage is None:
                 continue
             producers.setdefault((stage, name), None)
-            files[G.content_key(stage, name, G.FILE)] = G.default_content(stage, name, G.FILE)
-            files[G.content_key(stage, name, None)] = G.default_content(stage, name, None)
         for k, text in c['contents'].items():
             if files.get(k, text) != text:
                 raise HarnessError('two cases want different contents for %s' % k)
             files[k] = text
+    for stage, name in producers:
+        files.setdefault(G.content_key(stage, name, G.FILE), G.default_content(stage, name, G.FILE))
+        files.setdefault(G.content_key(stage, name, None), G.default_content(stage, name, None))
     # stage indexes must be contiguous from 0: a neutral stage-0 component is always present
     comps = [{'name': 'anchor0', 'stage': 0, 'command': {'executable': 'echo', 'arguments': 'anchor'}}]
     comps += [{'name': n, 'stage': s, 'command': {'executable': 'echo', 'arguments': 'producer'}}
